@@ -52,7 +52,7 @@ def run_case(case, swapped, pname, variant, occ=0):
             problems.append('%s delivered %r, spec %r' % (label, got, want))
 
     if kw.get('presorted'):
-        sa, sb = list(etl.sort(a)), list(etl.sort(b))
+        sa, sb = [list(r) for r in etl.sort(a)], [tuple(r) for r in etl.sort(b)]   # list rows vs tuple rows
         expect('complement(presorted)', lambda: etl.complement(sa, sb, presorted=True), case['comp'])
         expect('complement(presorted, strict)', lambda: etl.complement(sa, sb, presorted=True, strict=True), case['compstrict'])
         expect('intersection(presorted)', lambda: etl.intersection(sa, sb, presorted=True), case['inter'])
@@ -64,6 +64,9 @@ def run_case(case, swapped, pname, variant, occ=0):
     expect('recordcomplement(strict)', lambda: etl.recordcomplement(a, b_sw, strict=True, **kw), case['compstrict'])
     expect('diff[1]', lambda: etl.diff(a, b, **kw)[1], case['comp'])
     expect('diff[0]', lambda: etl.diff(a, b, **kw)[0], swapped['comp'])
+    expect('diff(strict)[1]', lambda: etl.diff(a, b, strict=True, **kw)[1], case['compstrict'])
+    expect('diff(strict)[0]', lambda: etl.diff(a, b, strict=True, **kw)[0], swapped['compstrict'])
+    expect('recorddiff(strict)[1]', lambda: etl.recorddiff(a, b_sw, strict=True, **kw)[1], case['compstrict'])
     expect('recorddiff[1]', lambda: etl.recorddiff(a, b_sw, **kw)[1], case['comp'])
     # recorddiff[0] = recordcomplement(b, a): header and field order are b's (g, f) and the rows are sorted in
     # THAT field order, so only header and multiset are compared with the (f, g)-ordered definition
